@@ -8,7 +8,7 @@
 (***************************************************************************)
 EXTENDS Semirings
 
-SRS == {"Bool", "Sat2", "Sat3", "Rat", "MaxTimes", "MaxPlus", "Expect"}
+SRS == {"Bool", "Sat2", "Sat3", "Rat", "MaxTimes", "MaxPlus", "Expect", "BM2"}
 
 VARIABLES sr, a, b, c
 vars == <<sr, a, b, c>>
@@ -21,7 +21,7 @@ AddComm == Add(sr, a, b) = Add(sr, b, a)
 AddZero == Add(sr, a, Zero(sr)) = a /\ Add(sr, Zero(sr), a) = a
 MulAssoc == Mul(sr, Mul(sr, a, b), c) = Mul(sr, a, Mul(sr, b, c))
 MulOne == Mul(sr, a, One(sr)) = a /\ Mul(sr, One(sr), a) = a
-MulComm == Mul(sr, a, b) = Mul(sr, b, a)
+MulComm == sr # "BM2" => Mul(sr, a, b) = Mul(sr, b, a)     \* BM2 is the model's non-commutative domain
 DistribL == Mul(sr, a, Add(sr, b, c)) = Add(sr, Mul(sr, a, b), Mul(sr, a, c))
 DistribR == Mul(sr, Add(sr, a, b), c) = Add(sr, Mul(sr, a, c), Mul(sr, b, c))
 Annihil == Mul(sr, a, Zero(sr)) = Zero(sr) /\ Mul(sr, Zero(sr), a) = Zero(sr)
